@@ -17,6 +17,17 @@ use serde_json::{json, Value};
 use std::sync::{Arc, Mutex};
 use std::time::{SystemTime, UNIX_EPOCH};
 
+/// The network names behind the specification's n1, n2, n3: distinct names that are as close
+/// to each other as names get (one separator character apart).
+fn cn(n: &str) -> String {
+    match n {
+        "n1" => "test_net".to_owned(),
+        "n2" => "test-net".to_owned(),
+        "n3" => "testnet".to_owned(),
+        other => other.to_owned(),
+    }
+}
+
 fn seed_of(k: &str) -> [u8; 32] {
     match k {
         "X" => [11u8; 32],
@@ -34,7 +45,7 @@ fn mint_row(c: &Value) -> Vec<u8> {
         subject_seed: subj,
         signer_seed: if c["signer"] == c["subj"] { None } else { Some(signer) },
         // the odd shapes carry the name the verifier will be asked about, in the wrong place
-        names: vec![if matches!(san, "absent" | "iponly" | "garbled") { "n1".to_owned() } else { san.to_owned() }],
+        names: vec![if matches!(san, "absent" | "iponly" | "garbled") { cn("n1") } else { cn(san) }],
         san_kind: match san { "absent" => "absent", "iponly" => "iponly", "garbled" => "garbled", _ => "dns" },
         decoy: match c["decoy"].as_str().unwrap_or("none") { "none" => None, k => Some(seed_of(k)) },
         validity: match c["validity"].as_str().unwrap() {
@@ -71,7 +82,7 @@ pub fn replay(a: &Args) -> i32 {
     for row in tables["id_client"].as_array().unwrap() {
         evaluations += 1;
         let der = mint_row(&row["cert"]);
-        let names: Vec<String> = row["names"].as_array().unwrap().iter().map(|n| n.as_str().unwrap().to_owned()).collect();
+        let names: Vec<String> = row["names"].as_array().unwrap().iter().map(|n| cn(n.as_str().unwrap())).collect();
         let got = anemo::verif::direct::verify_client_cert(names, &der, &[], now);
         if got.is_ok() != row["expect"].as_bool().unwrap() {
             bad(format!("verify_client_cert returned {got:?}"), row);
@@ -91,11 +102,11 @@ pub fn replay(a: &Args) -> i32 {
             k => Some(sim::peer_id_of(&seed_of(k))),
         };
         let got = anemo::verif::direct::verify_server_cert(
-            vec![row["name"].as_str().unwrap().to_owned()],
+            vec![cn(row["name"].as_str().unwrap())],
             pin,
             &der,
             &[],
-            row["dialled"].as_str().unwrap(),
+            &cn(row["dialled"].as_str().unwrap()),
             now,
         );
         if got.is_ok() != row["expect"].as_bool().unwrap() {
@@ -118,7 +129,7 @@ pub fn replay(a: &Args) -> i32 {
     }
     // (d) single-byte mutations of a valid certificate
     {
-        let cert = adv::honest_cert(&seed_of("X"), "n1").as_ref().to_vec();
+        let cert = adv::honest_cert(&seed_of("X"), &cn("n1")).as_ref().to_vec();
         let id = sim::peer_id_of(&seed_of("X"));
         let alts: Vec<u8> = if a.u64("full_mutations", 0) == 1 { (1..=255u8).collect() } else { vec![1, 2, 0x10, 0x55, 0x80, 0xaa, 0xff] };
         for i in 0..cert.len() {
@@ -128,9 +139,9 @@ pub fn replay(a: &Args) -> i32 {
                 m[i] ^= d;
                 for server in [false, true] {
                     let ok = if server {
-                        anemo::verif::direct::verify_server_cert(vec!["n1".into()], None, &m, &[], "n1", now).is_ok()
+                        anemo::verif::direct::verify_server_cert(vec![cn("n1")], None, &m, &[], &cn("n1"), now).is_ok()
                     } else {
-                        anemo::verif::direct::verify_client_cert(vec!["n1".into()], &m, &[], now).is_ok()
+                        anemo::verif::direct::verify_client_cert(vec![cn("n1")], &m, &[], now).is_ok()
                     };
                     if ok && anemo::verif::direct::peer_id_from_certificate(&m) != Ok(id) {
                         bad(format!("mutation of byte {i} (^{d:#x}) accepted and attributed to another identity"), &json!({"server": server}));
@@ -158,8 +169,8 @@ pub fn replay(a: &Args) -> i32 {
         // listeners: one with names {n1}, one with {n1, n2}
         let mut cfg = base_config();
         cfg.connect_timeout_ms = Some(500);
-        let l1 = sim.add_node(NodeCfg { key: [41; 32], name: "n1".into(), alt: None, config: cfg.clone(), bind: None }).map_err(|e| e.to_string())?;
-        let l2 = sim.add_node(NodeCfg { key: [42; 32], name: "n1".into(), alt: Some("n2".into()), config: cfg.clone(), bind: None }).map_err(|e| e.to_string())?;
+        let l1 = sim.add_node(NodeCfg { key: [41; 32], name: cn("n1"), alt: None, config: cfg.clone(), bind: None }).map_err(|e| e.to_string())?;
+        let l2 = sim.add_node(NodeCfg { key: [42; 32], name: cn("n1"), alt: Some(cn("n2")), config: cfg.clone(), bind: None }).map_err(|e| e.to_string())?;
         let ids: Vec<(String, PeerId)> = ["X", "Y", "E"].iter().map(|k| (k.to_string(), sim::peer_id_of(&seed_of(k)))).collect();
         for (i, (_, p)) in ids.iter().enumerate() {
             sim.run.register_node(*p, 100 + i as i64);
@@ -177,10 +188,10 @@ pub fn replay(a: &Args) -> i32 {
             let mut chain = vec![CertificateDer::from(der)];
             match row["extra"].as_str().unwrap_or("none") {
                 "none" => {}
-                k => chain.push(adv::honest_cert(&seed_of(k), "n1")), // a replayed honest certificate
+                k => chain.push(adv::honest_cert(&seed_of(k), &cn("n1"))), // a replayed honest certificate
             }
             let cc = adv::client_config(Some((chain, proof)), None);
-            let connecting = ep.connect_with(cc, sim.addr(l), row["sni"].as_str().unwrap()).map_err(|e| e.to_string())?;
+            let connecting = ep.connect_with(cc, sim.addr(l), &cn(row["sni"].as_str().unwrap())).map_err(|e| e.to_string())?;
             let established = match tokio::time::timeout(std::time::Duration::from_secs(5), async {
                 let conn = connecting.await?;
                 adv::dialer_wait_ack(&conn).await?;
@@ -214,7 +225,7 @@ pub fn replay(a: &Args) -> i32 {
             sim.sleep_ms(20).await;
         }
         // certificate shapes and proofs a party without the key can always produce
-        let dialer = sim.add_node(NodeCfg { key: [43; 32], name: "n1".into(), alt: None, config: cfg.clone(), bind: None }).map_err(|e| e.to_string())?;
+        let dialer = sim.add_node(NodeCfg { key: [43; 32], name: cn("n1"), alt: None, config: cfg.clone(), bind: None }).map_err(|e| e.to_string())?;
         for (k, row) in shape_rows.iter().enumerate() {
             if k % shape_stride != 0 {
                 continue;
@@ -233,7 +244,7 @@ pub fn replay(a: &Args) -> i32 {
                 } else {
                     adv::client_config_junk_proof(chain, scheme)
                 };
-                let connecting = ep.connect_with(cc, sim.addr(l1), "n1").map_err(|e| e.to_string())?;
+                let connecting = ep.connect_with(cc, sim.addr(l1), &cn("n1")).map_err(|e| e.to_string())?;
                 // the connection is kept open until the listing has been looked at
                 let held = tokio::time::timeout(std::time::Duration::from_secs(5), async {
                     let conn = connecting.await?;
@@ -300,7 +311,7 @@ pub fn replay(a: &Args) -> i32 {
         // no client certificate at all
         {
             let (ep, _) = adv::endpoint(&sim.run.fabric, None).map_err(|e| e.to_string())?;
-            let connecting = ep.connect_with(adv::client_config(None, None), sim.addr(l1), "n1").map_err(|e| e.to_string())?;
+            let connecting = ep.connect_with(adv::client_config(None, None), sim.addr(l1), &cn("n1")).map_err(|e| e.to_string())?;
             let r = tokio::time::timeout(std::time::Duration::from_secs(5), async {
                 let conn = connecting.await?;
                 adv::dialer_wait_ack(&conn).await?;
@@ -320,8 +331,8 @@ pub fn replay(a: &Args) -> i32 {
             *n_hs2.lock().unwrap() += 1;
             let mk = |c: &Value, key: u8| NodeCfg {
                 key: [key; 32],
-                name: c["primary"].as_str().unwrap().to_owned(),
-                alt: match c["alt"].as_str().unwrap() { "none" => None, x => Some(x.to_owned()) },
+                name: cn(c["primary"].as_str().unwrap()),
+                alt: match c["alt"].as_str().unwrap() { "none" => None, x => Some(cn(x)) },
                 config: { let mut c = base_config(); c.connect_timeout_ms = Some(400); c },
                 bind: None,
             };
